@@ -451,7 +451,7 @@ def mon_C07(ops, results):
                 if k.startswith("x.") and name != "wuwx" or (k.startswith("x.") and name == "wuwx"):
                     if k[2:] not in ax:
                         out.append(viol("C07.named-xattr-set", i, "%s: xattr %s not stored" % (name, k[2:])))
-                if k.startswith("d.") and k[2:] in ax and name not in ("wuwx",):
+                if k.startswith("d.") and k[2:] in ax and not any(kk == "x." + k[2:] for kk, _ in args):
                     out.append(viol("C07.named-xattr-removed", i, "%s: xattr %s still stored" % (name, k[2:])))
             # macros resolve to the new CAS and to the checksum of the body as stored
             for k, v in args:
